@@ -135,6 +135,15 @@ func runECIES(c *vf.Check, g *groups.G, part, parts int) {
 				}
 				c.Eval(1)
 				got, err := ecies.Decrypt(g.Group, priv, append([]byte{}, ct...), sha256.New)
+				{
+					// the same buffer decrypted twice, and left as it was
+					buf := append([]byte{}, ct...)
+					g1, e1 := ecies.Decrypt(g.Group, priv, buf, sha256.New)
+					g2, e2 := ecies.Decrypt(g.Group, priv, buf, sha256.New)
+					if err == nil && (e1 != nil || e2 != nil || !bytes.Equal(g1, got) || !bytes.Equal(g2, got) || !bytes.Equal(buf, ct)) {
+						x.Failf(pk+"/decrypt-consumes-ciphertext", "%s: decrypting the same buffer twice fails, differs, or changes the buffer (%v, %v)", id, e1, e2)
+					}
+				}
 				if err != nil || !bytes.Equal(got, msg) {
 					x.Failf(pk+"/roundtrip", "%s: Decrypt(Encrypt(m)) = %d bytes, err=%v", id, len(got), err)
 					return
@@ -270,6 +279,22 @@ func runIBE(c *vf.Check, ps groups.PS, mode string) {
 					if err != nil || !bytes.Equal(got, msg) {
 						x.Failf(pk+"/roundtrip", "%s: accepted at encryption but Decrypt gives %d bytes, err=%v", id, len(got), err)
 						return
+					}
+					// the same ciphertext object decrypted again (a wrong key first, then the right one twice): Decrypt does
+					// not consume or rewrite the caller's ciphertext
+					{
+						again := cp()
+						guard(x, pk+"/panic", id+" decrypt again", func() {
+							_, _ = dec(privOther, again)
+							g1, e1 := dec(privK, again)
+							g2, e2 := dec(privK, again)
+							if e1 != nil || e2 != nil || !bytes.Equal(g1, msg) || !bytes.Equal(g2, msg) {
+								x.Failf(pk+"/decrypt-consumes-ciphertext", "%s: decrypting the same ciphertext object again fails or gives another plaintext (%v, %v)", id, e1, e2)
+							}
+						})
+						if !again.U.Equal(ct.U) || !bytes.Equal(again.V, ct.V) || !bytes.Equal(again.W, ct.W) {
+							x.Failf(pk+"/decrypt-consumes-ciphertext", "%s: Decrypt changed the caller's ciphertext", id)
+						}
 					}
 					if leak(msg, ct.W) >= 0 || leak(msg, ct.V) >= 0 {
 						x.Failf(pk+"/plaintext-in-clear", "%s: a plaintext block is visible in the ciphertext", id)
